@@ -62,8 +62,15 @@ Record site := Site {
   s_config : bool;       (* class-level (Config.discriminator) wiring; then s_bases = [the declaring class] *)
   s_codec  : bool;       (* site of a codec (non-nailed builder): nested class-level registries live on the codec *)
   s_fid    : nat;        (* Discriminator.field: id of the key name (dispatchers of one hierarchy may use different keys) *)
-  s_tgid   : nat         (* which tagger function (every dispatcher binds its own since /repo 79143aa) *)
+  s_tgid   : nat;        (* which tagger function (every dispatcher binds its own since /repo 79143aa) *)
+  s_none   : bool        (* Annotated[Optional[Union[..]], D]: the union flattens to Union[.., None], NoneType is a base variant *)
 }.
+
+(* known finding optional-union-nonetype-variant: with include_supertypes NoneType is a variant (the last one); a tagger
+   makes the refill compile every variant, and compiling NoneType raises TypeError - after all real classes were registered *)
+Definition crash_on_refill (s: site) : bool := false.
+(* until /repo 439013a this was  s_none s && s_sup s && negb (s_config s) && s_tagger s && negb (s_codec s)  (a holder's
+   refill crashed while compiling NoneType); now None is dropped from the base variants and answered by the field itself *)
 
 (* builder.py:396-401 rebuilds the Discriminator without include_supertypes *)
 Definition eff_sup (s: site) : bool := s_sup s && negb (s_config s).
@@ -165,9 +172,10 @@ Inductive outcome :=
 | ONotFound                (* SuitableVariantNotFoundError *)
 | OBadSite
 | ORej (c: nat)            (* the selected class rejects the input (MissingField / InvalidFieldValue of class c surfaces) *)
-| OKeyErr (c: nat)         (* a KeyError leaving class c's from_dict; never leaves a dispatcher (internal) *)
+| OKeyErr (c: nat)         (* a KeyError leaving class c's from_dict surfaces (swallowed only by a no-field loop) *)
 | OMany (cs: list nat)     (* all fields of a DecodeSeq succeeded *)
-| ONotDict.                (* ValueError "Argument for ... discriminated by ... should be a dict instance" *)
+| ONotDict                 (* ValueError "Argument for ... discriminated by ... should be a dict instance" *)
+| OCrash.                  (* TypeError from compiling NoneType during a refill (the registry is filled nevertheless) *)
 
 Definition st0 : st := St [] [].
 
@@ -205,9 +213,9 @@ Section Step.
        the registries of their nested class-level dispatchers start empty again *)
     let rs := if codec then reset_nested top (built (classes x0) s) (regs x0) else regs x0 in
     let x' := St (classes x0) ((k, r') :: rs) in
+    if crash_on_refill s then (x', OCrash) else
     match reg_get t r' with
-    | Some c => let (x2, o) := enter x' c in
-                match o with OKeyErr _ => (x2, ONotFound) | _ => (x2, o) end
+    | Some c => enter x' c                                        (* the call is outside the guarded lookup *)
     | None => (x', ONotFound)
     end.
 
@@ -215,8 +223,7 @@ Section Step.
   Definition field_body (enter: st -> nat -> st * outcome) (top: nat) (codec: bool) (k: rkey) (s: site) (t: tag)
                         (x: st) : st * outcome :=
     match reg_get t (get_reg k (regs x)) with
-    | Some c => let (x1, o) := enter x c in                       (* try: return registry[tag].from_dict(value) *)
-                match o with OKeyErr _ => refill_retry enter top codec k s t x1 | _ => (x1, o) end
+    | Some c => enter x c                                         (* try: unpack = registry[tag].from_dict / return unpack(value) *)
     | None => refill_retry enter top codec k s t x
     end.
 
@@ -322,7 +329,7 @@ Definition outcome_eqb (a b: outcome) : bool :=
   | OInst x, OInst y | ORej x, ORej y | OKeyErr x, OKeyErr y => Nat.eqb x y
   | OMissing, OMissing | ONotFound, ONotFound | OBadSite, OBadSite => true
   | OMany x, OMany y => list_eqb Nat.eqb x y
-  | ONotDict, ONotDict => true
+  | ONotDict, ONotDict | OCrash, OCrash => true
   | _, _ => false
   end.
 
